@@ -153,6 +153,8 @@ class Ctx:
                 continue
             main.append(r)
             self.paths += r.num_paths
+            self._slow = sorted(getattr(self, "_slow", []) + [(round(r.wall, 1), j.ident())], reverse=True)[:5]
+            self.extra["slowest_conditions"] = self._slow
             if r.status == "confirmed":
                 self.discharge(j.ident(), 0, r.wall, {"condition": j.ident(), "result": "confirmed over all paths", "paths": r.num_paths, "wall_s": round(r.wall, 2)} if len(self.samples) < 6 else None)
             elif r.status == "inconclusive":
